@@ -31,11 +31,13 @@ def _tril(rng, n, unit=True):
     return [[(rng.randint(-1, 1) if j < i else (rng.randint(1, 2) if j == i else 0)) for j in range(n)] for i in range(n)]
 
 
-def make_instance(rng, kind, *, K=None, n=None, d=None, zero_init=False):
+def make_instance(rng, kind, *, K=None, n=None, d=None, zero_init=False, force_full=False):
     """reverse Markov sequence with K conditionals (K+1 time points)"""
     K = rng.randint(0, 2) if K is None else K
     n = rng.randint(1, 2) if n is None else n
-    d = 1 if kind == "dense" and rng.random() < 0.3 else (rng.randint(1, 2) if d is None else d)
+    d = 1 if kind == "dense" and rng.random() < 0.3 and not force_full else (rng.randint(1, 2) if d is None else d)
+    if force_full:
+        d = 2
     while (K + 1) * d > 4:  # observed joint must stay <= 4 x 4 for the exact inverse
         if K > 0:
             K -= 1
@@ -54,8 +56,23 @@ def make_instance(rng, kind, *, K=None, n=None, d=None, zero_init=False):
             for c, c0 in zip(b["conds"], blocks[0]["conds"]):
                 for f in ("A", "LQ", "tl", "to"):
                     c[f] = c0[f]
-    if kind == "dense" and d > 1:
-        pass
+    full = None
+    if kind == "dense" and d > 1 and (force_full or rng.random() < 0.6):
+        # genuinely dense pieces: cross-dimension coupling in the initial factor, the transitions and the noise factors
+        # (the embedded per-dimension blocks alone never correlate the dimensions of the dense model)
+        N = n * d
+
+        def couple(M, lower):
+            M = [list(r) for r in M]
+            for i in range(N):
+                for j in range(N):
+                    if (i % d) != (j % d) and (j < i or not lower) and rng.random() < 0.5:
+                        M[i][j] = F(rng.randint(-1, 1))
+            return M
+
+        full = dict(LP=couple(_emb_mat(blocks, lambda b: b["LP"], n, n, d), True) if not zero_init else _emb_mat(blocks, lambda b: b["LP"], n, n, d),
+                    conds=[dict(A=couple(_emb_mat(blocks, lambda b, s=s: b["conds"][s]["A"], n, n, d), False),
+                                LQ=couple(_emb_mat(blocks, lambda b, s=s: b["conds"][s]["LQ"], n, n, d), True)) for s in range(K)])
     idx = rng.randint(0, n - 1)
     noise_sd = []
     for _ in range(K + 1):
@@ -64,7 +81,25 @@ def make_instance(rng, kind, *, K=None, n=None, d=None, zero_init=False):
             v = [v[0]] * d
         noise_sd.append(v)
     data = [[rng.randint(-2, 2) for _ in range(d)] for _ in range(K + 1)]
-    return dict(kind=kind, K=K, n=n, d=d, blocks=blocks, idx=idx, noise_sd=noise_sd, data=data, average=rng.random() < 0.5)
+    return dict(kind=kind, K=K, n=n, d=d, blocks=blocks, full=full, idx=idx, noise_sd=noise_sd, data=data, average=rng.random() < 0.5)
+
+
+def _LP(inst):
+    if inst.get("full"):
+        return inst["full"]["LP"]
+    return _emb_mat(inst["blocks"], lambda b: b["LP"], inst["n"], inst["n"], inst["d"])
+
+
+def _A(inst, s):
+    if inst.get("full"):
+        return inst["full"]["conds"][s]["A"]
+    return _emb_mat(inst["blocks"], lambda b: b["conds"][s]["A"], inst["n"], inst["n"], inst["d"])
+
+
+def _LQ(inst, s):
+    if inst.get("full"):
+        return inst["full"]["conds"][s]["LQ"]
+    return _emb_mat(inst["blocks"], lambda b: b["conds"][s]["LQ"], inst["n"], inst["n"], inst["d"])
 
 
 def _emb_mat(blocks, get, n_r, n_c, d):
@@ -88,13 +123,13 @@ def tla_instance(inst):
     for k in range(K):  # chain step k+1 uses the conditional from t_{K-k} to t_{K-k-1} = stacked index K-k-1
         s = K - k - 1
         conds.append(dict(
-            A=_emb_mat(B, lambda b: b["conds"][s]["A"], n, n, d), b=_emb_vec(B, lambda b: b["conds"][s]["b"], n, d),
-            LQ=_emb_mat(B, lambda b: b["conds"][s]["LQ"], n, n, d), tl=_emb_vec(B, lambda b: b["conds"][s]["tl"], n, d),
+            A=_A(inst, s), b=_emb_vec(B, lambda b: b["conds"][s]["b"], n, d),
+            LQ=_LQ(inst, s), tl=_emb_vec(B, lambda b: b["conds"][s]["tl"], n, d),
             to=_emb_vec(B, lambda b: b["conds"][s]["to"], n, d), useQd=False, Qd=[[F(0)]]))
     H = [[F(1) if q == inst["idx"] * d + a else F(0) for q in range(n * d)] for a in range(d)]
     noise = [[F(s) * F(s) for s in inst["noise_sd"][K - k]] for k in range(K + 1)]
     data = [[F(v) for v in inst["data"][K - k]] for k in range(K + 1)]
-    return ratify(dict(m=_emb_vec(B, lambda b: b["m"], n, d), LP=_emb_mat(B, lambda b: b["LP"], n, n, d), conds=conds, H=H, noise=noise, data=data))
+    return ratify(dict(m=_emb_vec(B, lambda b: b["m"], n, d), LP=_LP(inst), conds=conds, H=H, noise=noise, data=data))
 
 
 def _f(x):
@@ -108,12 +143,12 @@ def build(inst):
     if kind == "dense":
         tf = de.DenseTreeFlatten.from_example([jnp.zeros((d,))] * n)
         t = tla_instance(inst)  # dense embedding of the pieces (floats below)
-        marg = de.DenseNormal(_f(_emb_vec(B, lambda b: b["m"], n, d)), _f(_emb_mat(B, lambda b: b["LP"], n, n, d)), tf)
+        marg = de.DenseNormal(_f(_emb_vec(B, lambda b: b["m"], n, d)), _f(_LP(inst)), tf)
         conds = []
         for s in range(K):
             conds.append(de.DenseLatentCond(
-                _f(_emb_mat(B, lambda b: b["conds"][s]["A"], n, n, d)),
-                de.DenseNormal(_f(_emb_vec(B, lambda b: b["conds"][s]["b"], n, d)), _f(_emb_mat(B, lambda b: b["conds"][s]["LQ"], n, n, d)), tf),
+                _f(_A(inst, s)),
+                de.DenseNormal(_f(_emb_vec(B, lambda b: b["conds"][s]["b"], n, d)), _f(_LQ(inst, s)), tf),
                 to_latent=_f(_emb_vec(B, lambda b: b["conds"][s]["tl"], n, d)), to_observed=_f(_emb_vec(B, lambda b: b["conds"][s]["to"], n, d))))
     elif kind == "iso":
         tf = iso.IsotropicTreeFlatten.from_example([jnp.zeros((d,))] * n)
